@@ -20,7 +20,8 @@ value is `Option Int`, `none` = JSON null). Attribute maps are association lists
 semantics (replace in place, else append).
 
 `Fix` selects the behaviour of the code as found at the pinned commit (`false`) or as repaired by
-fixes/C13-provision-value-body.diff (`valueBody`) and fixes/C13-port-update-keeps-pending.diff (`keepPending`).
+fixes/C13-provision-value-body.diff (`valueBody`), fixes/C13-port-update-keeps-pending.diff (`keepPending`) and
+fixes/C13-offline-write-kept-over-queued-values.diff (`keepPendingValue`).
 Core Lean only.
 -/
 namespace QtVerif.Slave
@@ -46,10 +47,11 @@ def aEnabled : Nat := 0
 structure Fix where
   valueBody   : Bool     -- apply_provisioning sends the cached value as the body of PATCH /ports/<id>/value
   keepPending : Bool     -- _handle_port_update keeps pending attributes and does not queue the embedded value
+  keepPendingValue : Bool -- read_value leaves _cached_value alone while a value is pending provisioning
   deriving Repr, DecidableEq
 
-def Fix.repaired : Fix := ⟨true, true⟩
-def Fix.asFound : Fix := ⟨false, false⟩
+def Fix.repaired : Fix := ⟨true, true, true⟩
+def Fix.asFound : Fix := ⟨false, false, false⟩
 
 /-! ### Master side -/
 
@@ -399,27 +401,30 @@ def pollOnce (fix : Fix) (refused : List Nat) (m : Master) (devAttrs : Attrs)
 
 /-! ### The hub's polling tick: read_value pops one value per tick -/
 
-/-- One tick on one port: `(value-change reported?, port)`. Disabled ports are not read. -/
-def tickPort (p : MPort) : Option PVal × MPort :=
+/-- One tick on one port: `(value-change reported?, port)`. Disabled ports are not read. The popped value is
+returned / reported in every case; repaired (`keepPendingValue`), it replaces `_cached_value` only if no value is
+pending provisioning (`'value' not in self._provisioning`), as found it always does. -/
+def tickPort (fix : Fix) (p : MPort) : Option PVal × MPort :=
   if !p.enabled then (none, p)
   else match p.rq with
     | [] => (none, p)
     | v :: rest =>
-      let p' := { p with rq := rest, cached := v, lastRead := v }
+      let p' := { p with rq := rest, cached := if fix.keepPendingValue && p.provValue then p.cached else v,
+                         lastRead := v }
       (if v != p.lastRead then some v else none, p')
 
 /-- All queued values of one port read, one per tick: the series of reported changes and the port. -/
-def drainPort : (fuel : Nat) → MPort → List PVal × MPort
+def drainPort (fix : Fix) : (fuel : Nat) → MPort → List PVal × MPort
   | 0, p => ([], p)
   | n + 1, p =>
     if !p.enabled || p.rq.isEmpty then ([], p)
     else
-      let (r, p') := tickPort p
-      let (rs, p'') := drainPort n p'
+      let (r, p') := tickPort fix p
+      let (rs, p'') := drainPort fix n p'
       ((match r with | some v => [v] | none => []) ++ rs, p'')
 
-def drain (m : Master) : List (Nat × List PVal) × Master :=
-  let res := m.ports.map (fun p => drainPort p.rq.length p)
+def drain (fix : Fix) (m : Master) : List (Nat × List PVal) × Master :=
+  let res := m.ports.map (fun p => drainPort fix p.rq.length p)
   ((m.ports.zip res).map (fun x => (x.1.id, x.2.1)), { m with ports := res.map (·.2) })
 
 /-! ### Slave side (for the replication invariant of C12) -/
